@@ -514,6 +514,9 @@ func c09ParseBody(data []byte, trex *mp4.TrexBox, keys *c09Keys) (*c09Body, erro
 	if err != nil {
 		return nil, err
 	}
+	if err := c09FixSenc(f, data, keys); err != nil {
+		return nil, err
+	}
 	var frags []*mp4.Fragment
 	for si, ms := range f.Segments {
 		if si == 0 && ms.Styp != nil {
@@ -529,7 +532,7 @@ func c09ParseBody(data []byte, trex *mp4.TrexBox, keys *c09Keys) (*c09Body, erro
 			return nil, fmt.Errorf("chunk %d: incomplete fragment", i)
 		}
 		if keys != nil {
-			if err := mp4.DecryptFragment(fr, *keys.di, keys.key); err != nil {
+			if err := c09Decrypt(fr, keys); err != nil {
 				return nil, fmt.Errorf("chunk %d: decrypt: %w", i, err)
 			}
 		}
@@ -758,6 +761,29 @@ func (c *c09Ctx) runImageOp(i int, op c09Op, rep *refmodel.Rep) {
 	if rc.Status != 200 || !bytes.Equal(rc.Body, rw.Body) {
 		res.Violate("C09.same-media", sig, "%s at %d: low-latency mode answers %d (%d bytes), normal mode 200 (%d bytes)", tg.URL, at, rc.Status, len(rc.Body), len(rw.Body))
 	}
+}
+
+// c09FixSenc re-reads the senc boxes with the IV size of the init segment (see hx.ReparseSenc).
+func c09FixSenc(f *mp4.File, raw []byte, keys *c09Keys) error {
+	if keys == nil || keys.di == nil || len(keys.di.TrackInfos) == 0 {
+		return nil
+	}
+	ti := keys.di.TrackInfos[0]
+	if ti.Sinf == nil || ti.Sinf.Schi == nil || ti.Sinf.Schi.Tenc == nil {
+		return nil
+	}
+	return hx.ReparseSenc(f, raw, ti.Sinf.Schi.Tenc.DefaultPerSampleIVSize)
+}
+
+// c09Decrypt decrypts one served fragment. Encryption data that does not fit the samples (e.g. a subsample
+// pattern larger than the sample) makes the decryptor panic: that is a property of what was served.
+func c09Decrypt(fr *mp4.Fragment, keys *c09Keys) (err error) {
+	defer func() {
+		if r := recover(); r != nil {
+			err = fmt.Errorf("decryptor panicked on the served fragment: %v", r)
+		}
+	}()
+	return mp4.DecryptFragment(fr, *keys.di, keys.key)
 }
 
 func (c *c09Ctx) runOp(i int, op c09Op) {
